@@ -57,18 +57,18 @@ Section WW.
     - (* fresh prewrite: conflict check at the start ts *)
       subst c. cbn [ks_lock]. rewrite H2.
       assert (Hs : In s (w_starts W)) by (apply Hcs; left; reflexivity).
-      destruct (wf_lock _ _ Hwx l' eq_refl) as [_ Hnl]. cbn [ks_writes] in Hnl. rewrite H4 in Hnl.
+      destruct (wf_lock _ _ Hwx l' eq_refl) as [_ Hnl]. cbn [ks_writes] in Hnl. rewrite H5 in Hnl.
       assert (Hupd : forall s0, s0 <> s -> gk_upd gk None (Some l') s0 = gk s0).
-      { intros s0 Hne. unfold gk_upd. rewrite H4. destruct (N.eqb_spec s s0); [congruence|reflexivity]. }
+      { intros s0 Hne. unfold gk_upd. rewrite H5. destruct (N.eqb_spec s s0); [congruence|reflexivity]. }
       assert (Hself : gk_upd gk None (Some l') s = s).
-      { unfold gk_upd. rewrite H4, N.eqb_refl, H5. reflexivity. }
+      { unfold gk_upd. rewrite H5, N.eqb_refl, H6. reflexivity. }
       split; cbn [ks_writes ks_lock].
       + intros w1 w2 H1' H2' R1 R2 Hne Hlt. rewrite Hupd; [eapply (ki_ww _ _ Hi); eassumption|].
         intros E. apply Hnl. rewrite <- E. apply in_map; exact H2'.
-      + intros l El w Hin Hr. inversion El; subst l. rewrite H4, Hself.
-        pose proof (ccv_ok_below _ _ _ _ _ _ (wf_desc _ _ Hwf) H3 w Hin) as Hle. cbn [c_for_update] in Hle.
+      + intros l El w Hin Hr. inversion El; subst l. rewrite H5, Hself.
+        pose proof (ccv_ok_below _ _ _ _ _ _ (wf_desc _ _ Hwf) H4 w Hin) as Hle. cbn [c_for_update] in Hle.
         pose proof (nonrb_pair ks w Hwf Hin Hr) as Hp. pose proof (wo_disj W HW _ _ s Hp Hs). lia.
-      + intros l El cm Hp. inversion El; subst l. rewrite H4, Hself. apply (wo_lt W HW); rewrite H4 in Hp; exact Hp.
+      + intros l El cm Hp. inversion El; subst l. rewrite H5, Hself. apply (wo_lt W HW); rewrite H5 in Hp; exact Hp.
       + intros l El Hp. inversion El; subst l. congruence.
     - (* prewrite over the own pessimistic lock: the ghost stays *)
       subst c. cbn [ks_lock]. rewrite H2.
@@ -138,6 +138,8 @@ Section WW.
       destruct Hi as [I1 I2 I3 I4]. split; cbn [ks_writes ks_lock]; auto.
       + intros w1 w2 H1' H2'. apply gc_writes_in in H1'. apply gc_writes_in in H2'. apply I1; assumption.
       + intros l El w Hin. apply gc_writes_in in Hin. apply (I2 l El); assumption.
+    - (* delete range *)
+      cbn [empty_ks ks_lock]. apply kinv_ext with (gk := gk); [intros s0; reflexivity|apply kinv_empty].
   Qed.
 
   Definition ginv (st : store) (g : ghost) : Prop := forall k, kinv (get_ks st k) (g k).
